@@ -25,6 +25,7 @@ ALPHABET = [
     ["set_initial", "x", "vec", [0.8, 0.5]],
     ["query", "sample"],
     ["solve"],
+    ["sol_query"],
 ]
 INVALIDATING = ("subject_to", "clear_constraints", "add_objective", "method", "set_der")
 
@@ -91,6 +92,6 @@ def run_case(case):
 
 def describe(tier):
     return dict(
-        rule="(base 2: free horizon, 11-operation alphabet with time-expression guesses, guesses of T, methods with other grids, query, solve) and every operation sequence of length <= d over a 17-operation alphabet (2 subject_to, clear_constraints, add_objective, 3 methods, 2 solver option sets, set_T, set_t0, set_der with another right-hand side, 2 set_value, set_initial, query, solve) applied to a live Ocp (no implementation-side state merging), followed by the observation `solve` under a solver spy; oracle: the NLP (canonical rows, objective, start point, parameter vector) and solver settings seen by the solver equal those of a fresh Ocp declared from the final specification; a second solve sees the same; public declared state unchanged by queries/solves; distinct = digest of the observation",
+        rule="(base 2: free horizon, 11-operation alphabet with time-expression guesses, guesses of T, methods with other grids, query, solve) and every operation sequence of length <= d over a 18-operation alphabet (2 subject_to, clear_constraints, add_objective, 3 methods, 2 solver option sets, set_T, set_t0, set_der with another right-hand side, 2 set_value, set_initial, query, solve, reading the latest solution object again) applied to a live Ocp (no implementation-side state merging), followed by the observation `solve` under a solver spy; oracle: the NLP (canonical rows, objective, start point, parameter vector) and solver settings seen by the solver equal those of a fresh Ocp declared from the final specification; a second solve sees the same; public declared state unchanged by queries/solves; distinct = digest of the observation",
         bound="depth %d%s" % ((4, " + restricted depth 5") if tier == "thorough" else (3, "")),
         assumptions=["solver spy at casadi.Opti.solve/solve_limited/solver is 'what the solver receives'", "observation with ipopt max_iter=0 (returns the start point)", "rows compared at 2 generic points and the start point"])
